@@ -19,6 +19,7 @@ def oracle(line: str, obs: Obs):
     fails = []
     now = T0
     peers = {p["name"]: p for p in cfg["peers"]}
+    canon = {n.lower(): n for n in peers}        # host names are case-insensitive
     pstate = {n: {"conn": "-", "reason": "-", "disc": "0", "last_disc": None} for n in peers}
     cstate = {}
     known_conns = set()
@@ -36,6 +37,8 @@ def oracle(line: str, obs: Obs):
         before_p = {n: dict(v) for n, v in pstate.items()}
         before_c = dict(cstate)
         conns = {l.split(" ")[1]: kv(l) for l in lines if l.startswith("CONN ")}
+        for d in conns.values():
+            d["name"] = canon.get(d["name"].lower(), d["name"])
         newc = [k for k in conns if k not in known_conns]
         known_conns |= set(conns)
         dialled = {}
@@ -51,6 +54,12 @@ def oracle(line: str, obs: Obs):
                 elif d["disc"] == "1" and pstate[n]["last_disc"] is None:
                     pstate[n]["last_disc"] = now
                 pstate[n].update(conn=d["conn"], reason=d["reason"], disc=d["disc"])
+        for n, v in pstate.items():
+            # a connection the node itself has marked closed is lost, whatever the peer record still says
+            if v["conn"] != "-" and conns.get(v["conn"], {}).get("state") == "CLOSED" and t[0] in ("adv", "tick", "rx", "eof", "rerr"):
+                v["conn"] = "-"
+                if before_p[n]["conn"] != "-":
+                    v["last_disc"] = now
         for k in newc:
             # a dial attempt that ended within the same step (refused at once) is a loss at this instant
             if conns[k]["dir"] == "S" and conns[k]["live"] == "0" and conns[k]["name"] in pstate:
@@ -116,9 +125,9 @@ def oracle(line: str, obs: Obs):
     return fails
 
 
-def cfg_line(persistent, always, wait, addr=1):
+def cfg_line(persistent, always, wait, addr=1, name="peer1.x"):
     return (f"NODE host=node.local;realm=realm.local;cea=4;cer=4;idle=30;dwa=4;"
-            f"peer:peer1.x,realm.local,{persistent},{always},{wait},{addr},1,-,-,-,-;"
+            f"peer:{name},realm.local,{persistent},{always},{wait},{addr},1,-,-,-,-;"
             f"peer:peer2.x,realm.local,1,0,3,1,0,-,-,-,-;app:4,1,0,b,0,0+1,-")
 
 
@@ -165,6 +174,22 @@ def scenarios(rng: random.Random, tier: str):
             out.append(base + f" | rerr 0 hard | adv {wait} | adv {wait}")
             out.append(cfg_line(1, 0, wait) + " | start ok,ok | rx 0 " + nodegen.cea(2001, spell, n(), n()) + " | rx 0 " +
                        nodegen.dpr(n(), n(), spell) + f" | eof 0 | adv {wait} | adv {wait}")
+    # the peer is configured with capitals in its name: losses, slow and failing redials
+    for name in ("Dra1.Example.X", "PEER1.X"):
+        for wait in (2, 5):
+            base = cfg_line(1, 1, wait, name=name) + " | start ok,ok | rx 0 " + nodegen.cea(2001, name, n(), n())
+            out.append(base + f" | eof 0 | adv {wait} | adv 1 | adv 1 | rx 2 " + nodegen.cea(2001, name, n(), n()) + f" | adv {wait}")
+            out.append(base + f" | eof 0 | adv {wait - 1} | dial inp | adv 1 | adv 1 | conn 2 ok | adv 1 | rx 2 " +
+                       nodegen.cea(2001, name, n(), n()) + " | adv 1")
+            out.append(base + f" | rerr 0 hard | dial fail,fail | adv {wait} | adv 1 | adv {wait} | adv {wait}")
+            out.append(base + " | rx 0 " + nodegen.dpr(n(), n(), name) + f" | eof 0 | adv {wait - 1} | adv 1 | adv {wait}")
+    # the connection is lost on a write (hard error from send()): same loss, same redial
+    for wait in (2, 5):
+        for always in (0, 1):
+            base = cfg_line(1, always, wait) + " | start ok,ok | rx 0 " + nodegen.cea(2001, "peer1.x", n(), n())
+            out.append(base + " | wr 0 hard | rx 0 " + nodegen.dwr(n(), n()) + f" | tick | adv {wait - 1} | adv 1 | adv {wait}")
+            out.append(base + " | wr 0 soft,hard | rx 0 " + nodegen.dwr(n(), n()) + f" | tick | tick | adv {wait} | adv {wait}")
+            out.append(base + " | wr 0 hard | req 0 " + nodegen.ccr(0, 0, "node.local") + f" 1 | tick | adv {wait} | adv {wait}")
     # DPR while a DWR of ours is unanswered (READY_WAITING_DWA), then a late DWA
     idle_cfg = cfg_line(1, 0, 5).replace("idle=30", "idle=3")
     out.append(idle_cfg + " | start ok,ok | rx 0 " + nodegen.cea(2001, "peer1.x", n(), n()) + " | adv 4 | rx 0 " +
